@@ -31,6 +31,7 @@ def run(prog, chk):
     C17.depth_pairing(prog, chk)
     C15.scope_pairing(prog, chk, "A5.scope")
     retry_terminates(prog, chk)
+    retry_progress(prog, chk)
     C06.output_order(prog, chk)
     error_swallow(prog, chk)
     missing_bbox_default(prog, chk)
@@ -212,6 +213,114 @@ def retry_terminates(prog, chk):
         chk.ob(ok, "A4.retry-terminates", "process_tags", pt.where(h), detail, "the retry loop of process_tags: " + detail)
 
 
+def retry_progress(prog, chk):
+    """the retry of deferred elements happens whenever an element resolved after the first failure of a pass: the
+    progress measure read by the go-round-again test is advanced (strictly, unconditionally) by every successful
+    element - a measure that can stand still on a success (a set keyed by a non-unique index, a flag set only when
+    the element produced output) turns a forward reference into a reference error"""
+    from sa import discharge as D
+    from props.C01 import _derives_from_context
+
+    pt = prog.body("svgdx::transform::process_tags")
+    chk.touch(pt)
+    CTX = "svgdx::context::TransformerContext::"
+    # getters: context methods whose result feeds a switch of the retry loop
+    getters = set()
+    for x in pt.reachable:
+        t = pt.term(x)
+        if t["k"] != "switch" or not _derives_from_context(pt, t["op"]):
+            continue
+        work, seen = [t["op"]], 0
+        while work and seen < 40:
+            seen += 1
+            o = R.origin(pt, work.pop(), carriers={})
+            if o[0] == "call" and "fn" in o[2]:
+                c = Callee(o[2]["fn"])
+                if c.path.startswith(CTX) and not o[2]["args"][1:]:
+                    getters.add(c.path)
+                work += list(o[2]["args"])
+            elif o[0] == "rv":
+                rv = o[1]
+                work += [rv[k] for k in ("op", "a", "b") if isinstance(rv.get(k), dict)] + list(rv.get("ops", []))
+    fields = set()
+    for g in sorted(getters):
+        gb = prog.maybe_body(g)
+        if gb is None:
+            continue
+        for b_, i, st in gb.all_stmts():
+            if st.get("lhs") and st["lhs"][0] == 0 and st["rv"].get("k") == "use":
+                pl = (st["rv"]["op"].get("c") or st["rv"]["op"].get("m")) if isinstance(st["rv"].get("op"), dict) else None
+                if pl and pl[0] == 1 and pl[1] and str(pl[1][-1]).startswith("."):
+                    fields.add(pl[1][-1])
+    if not fields:
+        # the measure is the size of a collection held by the context?
+        for g in sorted(getters):
+            gb = prog.maybe_body(g)
+            if gb is None:
+                continue
+            for b_, i, st in gb.all_stmts():
+                rv = st.get("rv") or {}
+                if rv.get("k") == "ref" and rv["place"][0] == 1 and rv["place"][1] and str(rv["place"][1][-1]).startswith(".") and any(Callee(t["fn"]).path.split("::")[-1] == "len" for (_bb, t, _c) in gb.call_sites(lambda c: True)):
+                    chk.bad("A7.retry-progress", f"{gb.short}:strict", gb.where(), f"the progress measure read by the retry decision is the size of the collection `{rv['place'][1][-1][1:]}`: noting an element whose key is already present does not advance it (keys that are only unique per nesting level or per loop iteration collide), so resolving an element can go unnoticed and the elements waiting for it are reported as reference errors instead of being retried")
+                    return
+    if not fields:
+        chk.anchor_missing("A7.retry-progress", "process_tags: no progress measure (context getter returning a field) feeds the retry decision")
+        return
+    n = 0
+    for fld in sorted(fields):
+        setters = []
+        for b in prog.bodies.values():
+            if not b.path.startswith(CTX) or "{closure" in b.path:
+                continue
+            if any(st.get("lhs") and st["lhs"][0] == 1 and st["lhs"][1] and st["lhs"][1][-1] == fld for _, _, st in b.all_stmts()):
+                setters.append(b)
+        sites = [(bb, t, c) for sb in setters for (bb, t, c) in pt.call_sites(R.path_is(sb.path))]
+        chk.ob(bool(sites), "A7.retry-progress", f"process_tags:{fld}:noted", pt.where(), f"process_tags advances the progress measure `{fld[1:]}` ({', '.join(sb.short for sb in setters)})", f"process_tags never advances the progress measure `{fld[1:]}` its retry decision reads")
+        for sb in setters:
+            chk.touch(sb)
+            n += 1
+            # strictly and unconditionally: no branch, and the field is assigned field + positive constant
+            branches = [x for x in sb.reachable if sb.term(x)["k"] == "switch"]
+            incr = False
+            for b_, i, st in sb.all_stmts():
+                rv = st.get("rv") or {}
+                if rv.get("k") == "binop" and rv.get("op") in ("AddWithOverflow", "Add", "AddUnchecked"):
+                    a, c2 = rv.get("a") or {}, rv.get("b") or {}
+                    pl = a.get("c") or a.get("m")
+                    k = (c2.get("k") or {}).get("int") if isinstance(c2.get("k"), dict) else None
+                    if pl and pl[0] == 1 and pl[1] and pl[1][-1] == fld and isinstance(k, int) and k > 0:
+                        incr = True
+            chk.ob(incr and not branches, "A7.retry-progress", f"{sb.short}:strict", sb.where(), f"{sb.short}() adds a positive constant to `{fld[1:]}` on every call", f"{sb.short}() does not advance `{fld[1:]}` on every call ({'conditional' if branches else 'no `+= constant`'}): resolving an element can go unnoticed and the elements waiting for it are reported as reference errors instead of being retried")
+        for (bb, t, c) in sites:
+            n += 1
+            odd = []
+            for (a, x) in D.dominating_edges(pt, bb):
+                tt = pt.term(a)
+                o = R.origin(pt, tt["op"], carriers={})
+                for _ in range(4):
+                    if o[0] == "rv" and o[1].get("k") in ("unop", "cast", "use") and isinstance(o[1].get("a") or o[1].get("op"), dict):
+                        o = R.origin(pt, o[1].get("a") or o[1].get("op"), carriers={})
+                ok = False
+                if o[0] == "rv" and o[1].get("k") == "discr":
+                    ty = o[1].get("ty", "")
+                    ok = ty.startswith("std::result::Result<(svgdx::events::OutputList") or (ty.startswith("std::option::Option<") and ("Tag)" in ty or "SvgElement" in ty))
+                elif o[0] == "field":
+                    ok = str(o[1][1][-1]) == ".in_specs"
+                elif o[0] == "call" and "fn" in o[2]:
+                    cp = Callee(o[2]["fn"])
+                    last = cp.path.split("::")[-1]
+                    aty = pt.local_ty(R.origin_local(pt, o[2]["args"][0]) or -1) or "" if o[2]["args"] else ""
+                    ok = (last in ("is_some", "is_none") and "SvgElement" in (cp.inst + aty)) or last in ("is_empty", "is_ok", "is_err") and ("Tag" in (cp.inst + aty) or "OutputList, std::option::Option<svgdx::position::BoundingBox>" in (cp.inst + aty))
+                elif o[0] == "rv" and o[1].get("k") == "binop":
+                    # the retry loop's own `remain.len() != tags.len()` header: both sides are lengths of the tag lists
+                    sides = [R.origin(pt, o[1][sd], carriers={}) for sd in ("a", "b") if isinstance(o[1].get(sd), dict)]
+                    ok = len(sides) == 2 and all(sd[0] == "call" and "fn" in sd[2] and Callee(sd[2]["fn"]).path.split("::")[-1] == "len" and "Tag" in Callee(sd[2]["fn"]).inst for sd in sides)
+                if not ok:
+                    odd.append(pt.where(a, tt.get("line")))
+            chk.ob(not odd, "A7.retry-progress", f"process_tags:{c.path.split('::')[-1]}:every-success", pt.where(bb, t.get("line")), "every element whose generate_events succeeded (outside <specs>) is noted as progress", f"progress is noted only under a further condition ({', '.join(odd)}): an element that resolved without satisfying it is not seen as progress, and elements waiting for it fail with a reference error")
+    chk.floor("A7.retry-progress", n, 2, "progress setter / call site")
+
+
 def error_swallow(prog, chk):
     """the set of places where an SvgdxError result is not propagated equals the reviewed baseline"""
     import collections
@@ -223,10 +332,14 @@ def error_swallow(prog, chk):
     tp = os.path.join(os.path.dirname(os.path.dirname(os.path.abspath(__file__))), "tables", "error_swallow.json")
     with open(tp) as fh:
         table = json.load(fh)["entries"]
-    # keyed by (function, callee): *how* the error is discarded (ok(), unwrap_or, a match arm ...) is an idiom, not a fact
+    # keyed by (function, callee, class): *how* the error is discarded (ok(), if let, is_ok, a match arm ...) is an idiom,
+    # not a fact - but whether the error is *skipped* ("test") or *replaced by a value* ("default") is
+    def klass(fate):
+        return "default" if fate.split(":")[-1] in ("unwrap_or", "unwrap_or_else", "unwrap_or_default", "map_or", "map_or_else", "match-default") else "test"
+
     allow = {}
     for e in table:
-        a = allow.setdefault((e["function"], e["callee"]), dict(count=0, used=0, reason=e["reason"]))
+        a = allow.setdefault((e["function"], e["callee"], klass(e["fate"])), dict(count=0, used=0, reason=e["reason"]))
         a["count"] += e["count"]
     # a helper that did not exist when the table was reviewed stands for the reviewed function(s) it was extracted from
     from props import strops
@@ -267,7 +380,7 @@ def error_swallow(prog, chk):
             k = (strip_closures(b.path), st.callee.path.split("::")[-1], f)
             ent = None
             for owner in reviewed_owners(k[0]):
-                e2 = allow.get((owner, k[1]))
+                e2 = allow.get((owner, k[1], klass(k[2])))
                 if e2 is not None and e2["used"] < e2["count"]:
                     ent = e2
                     break
